@@ -193,6 +193,7 @@ def iban_shard(args):
                 families.iban_checkpairs(base)]
         if filler in ("distinct", "natvalid"):
             gens.append(families.iban_prefixes(base))
+            gens.append(families.ws_padding(base))
         if tier == "thorough" and filler in ("distinct", "natvalid"):
             gens.append(families.double_subst(base))
         part.count(base, nontrivial=False)
@@ -216,8 +217,40 @@ def iban_shard(args):
                                     "how": f"{fam} from base {filler} {base}"}, exp, obs)
         part.sample({"country": country, "filler": filler, "base": base, "examples": examples})
         part.stat("iban_bases")
+    if country == "DE":
+        german_method_cases(part, tier)
     part.stat("countries")
     return part.done()
+
+
+def german_method_cases(part, tier):
+    """German IBANs of listed banks, one bank per Bundesbank method the registry uses: accounts the
+    reference accepts / rejects and every single-digit change of them, through all entry points
+    (national validation dispatches into the method objects only for listed banks)."""
+    from . import c07, c14
+    pools = c07.pools()
+    for m in sorted(pools):
+        code = c14.bank_for_method(m)
+        if code is None:
+            continue
+        acc, rej = pools[m]
+        seeds = acc[:2] + rej[:2] + ["9999999999", "0123456789"[::-1]]
+        seen = set()
+        for a in seeds:
+            variants = [a] + [a[:p] + d + a[p + 1:] for p in range(10) for d in "0123456789" if d != a[p]]
+            if tier == "quick":
+                variants = variants[:1] + variants[1::3]
+            for acct in variants:
+                if acct in seen:
+                    continue
+                seen.add(acct)
+                text = bases.iban_text("DE", code + acct)
+                part["evals"] += 6
+                part.seen.add(hash(text))
+                for sig, exp, obs in judge_iban(text):
+                    part.violation(f"{sig} [DE bank of method {m}]", {"kind": "iban_text", "text": text,
+                                   "how": f"listed bank {code} (method {m}), account {acct}"}, exp, obs)
+        part.stat("german_methods_through_iban")
 
 
 def bic_shard(args):
